@@ -7,6 +7,8 @@ From SU Require Import F32 F32Lemmas.
 From SU.Model Require Import Quantizer.
 From SU.Spec Require Import QuantSpec.
 From SU.Proofs Require Import QuantFloat QuantProofs QuantReal.
+From Flocq Require Import Core IEEE754.BinarySingleNaN.
+From SU.Proofs Require Import QuantExtraProofs.
 Open Scope Z_scope.
 
 (** a quantizer with no prior conversion is never inside a hysteresis window: its result
@@ -58,7 +60,26 @@ Example C08_example :
   find_nearest_note 8 (clamp_vin (of_bits 1072343443)) = 27 /\ valid_mask 8.
 Proof. split; [vm_compute; reflexivity | unfold valid_mask; lia]. Qed.
 
+(** what the input clamp is: [0,10] V, identity inside, NaN and -inf give 0 V, +inf gives 10 V *)
+Theorem C08_clamp : forall v : f32,
+  let r := clamp_vin v in
+  fin r /\ (0 <= R32 r <= 10)%R /\
+  (fin v -> R32 r = Rmin (Rmax (R32 v) 0) 10) /\
+  (fin v -> (0 <= R32 v <= 10)%R -> r = v) /\
+  (fin v -> (R32 v < 0)%R -> r = f_0) /\
+  (fin v -> (10 < R32 v)%R -> r = V_MAX) /\
+  (v = B754_nan -> r = f_0) /\
+  (v = B754_infinity false -> r = V_MAX) /\
+  (v = B754_infinity true -> r = f_0).
+Proof. exact clamp_vin_spec. Qed.
+
+(** clamping twice is clamping once *)
+Theorem C08_clamp_idem : forall v : f32, clamp_vin (clamp_vin v) = clamp_vin v.
+Proof. exact clamp_vin_idem. Qed.
+
 Print Assumptions C08_fresh_is_memoryless.
 Print Assumptions C08_nearest.
 Print Assumptions C08_monotone.
 Print Assumptions C08_real.
+Print Assumptions C08_clamp.
+Print Assumptions C08_clamp_idem.
